@@ -401,17 +401,28 @@ func (wf *Workflow) reconnectDeadEndConnections(procs map[string]WorkflowProcess
 // upstreamProcsForProc returns all processes it is connected to, either
 // directly or indirectly, via its in-ports and param-in-ports
 func upstreamProcsForProc(proc WorkflowProcess) map[string]WorkflowProcess {
-	procs := map[string]WorkflowProcess{}
+	return addUpstreamProcsForProc(proc, map[string]WorkflowProcess{})
+}
+
+// addUpstreamProcsForProc adds the processes upstream of proc to procs, and
+// recurses only into processes not already there, so that it terminates also
+// when a process is upstream of itself (as with InParamPort.FromStr(), whose
+// feeder port belongs to the receiving process)
+func addUpstreamProcsForProc(proc WorkflowProcess, procs map[string]WorkflowProcess) map[string]WorkflowProcess {
 	for _, inp := range proc.InPorts() {
 		for _, rpt := range inp.RemotePorts {
-			procs[rpt.Process().Name()] = rpt.Process()
-			mergeWFMaps(procs, upstreamProcsForProc(rpt.Process()))
+			if _, visited := procs[rpt.Process().Name()]; !visited {
+				procs[rpt.Process().Name()] = rpt.Process()
+				addUpstreamProcsForProc(rpt.Process(), procs)
+			}
 		}
 	}
 	for _, pip := range proc.InParamPorts() {
 		for _, rpp := range pip.RemotePorts {
-			procs[rpp.Process().Name()] = rpp.Process()
-			mergeWFMaps(procs, upstreamProcsForProc(rpp.Process()))
+			if _, visited := procs[rpp.Process().Name()]; !visited {
+				procs[rpp.Process().Name()] = rpp.Process()
+				addUpstreamProcsForProc(rpp.Process(), procs)
+			}
 		}
 	}
 	return procs
